@@ -50,13 +50,13 @@ func genDirCase(r *Rng, tier string) map[string]any {
 	entries := []any{}
 	var lastGood map[string]any
 	for i := 0; i < n && i < len(perm); i++ {
-		kinds := []string{"good", "good", "good", "goodtrip", "empty", "truncated", "garbage", "subdir", "vanish", "dangling"}
+		kinds := []string{"good", "good", "good", "goodtrip", "goodlink", "empty", "truncated", "garbage", "subdir", "vanish", "dangling"}
 		k := r.Pick(kinds)
 		if r.P(1, 8) {
-			k = r.Pick(kinds[4:]) // clusters of bad entries
+			k = r.Pick(kinds[5:]) // clusters of bad entries
 		}
 		e := map[string]any{"name": bstr(dirNames[perm[i]]), "fileKind": k}
-		if k == "good" || k == "goodtrip" {
+		if k == "good" || k == "goodtrip" || k == "goodlink" {
 			e["id"] = 1700000000 + int64(r.Intn(100000))*10 + int64(i)
 			if lastGood != nil && r.P(1, 4) {
 				// a byte-identical copy of an earlier good file: still one file, still yielded once
@@ -75,7 +75,7 @@ func materialise(dir string, entries []any, onlyGood bool) (vanish []string, err
 		name := gs(e, "name")
 		p := filepath.Join(dir, name)
 		k := gs(e, "fileKind")
-		if onlyGood && k != "good" && k != "goodtrip" {
+		if onlyGood && k != "good" && k != "goodtrip" && k != "goodlink" {
 			continue
 		}
 		switch k {
@@ -83,6 +83,14 @@ func materialise(dir string, entries []any, onlyGood bool) (vanish []string, err
 			err = os.WriteFile(p, goodFeedBytes(gi(e, "id"), false), 0o644)
 		case "goodtrip":
 			err = os.WriteFile(p, goodFeedBytes(gi(e, "id"), true), 0o644)
+		case "goodlink":
+			// a symbolic link to a readable, parseable file kept elsewhere: as good as the file itself
+			target := filepath.Join(filepath.Dir(dir), "targets-"+filepath.Base(dir))
+			os.MkdirAll(target, 0o755)
+			tf := filepath.Join(target, fmt.Sprintf("t%d", gi(e, "id")))
+			if err = os.WriteFile(tf, goodFeedBytes(gi(e, "id"), true), 0o644); err == nil {
+				err = os.Symlink(tf, p)
+			}
 		case "empty":
 			err = os.WriteFile(p, nil, 0o644)
 		case "truncated":
@@ -111,7 +119,7 @@ func materialise(dir string, entries []any, onlyGood bool) (vanish []string, err
 type dirProp struct{}
 
 func (p *dirProp) Rule() string {
-	return "real directories of 0-8 entries with names stressing bytewise order (digits, case, punctuation, multi-byte, dot files); entry kinds: good feed, good feed with a trip, byte-identical copies of a good feed under other names, empty file, truncated message, garbage bytes, sub-directory, file deleted after listing, dangling symlink; the sequence of Next() results is compared with the model's prediction and the journal over the directory with the journal over its good files alone; distinct = distinct input JSON; non-trivial = at least one good and one bad entry"
+	return "real directories of 0-8 entries with names stressing bytewise order (digits, case, punctuation, multi-byte, dot files); entry kinds: good feed, good feed with a trip, symbolic link to a good feed kept elsewhere, byte-identical copies of a good feed under other names, empty file, truncated message, garbage bytes, sub-directory, file deleted after listing, dangling symlink; the sequence of Next() results is compared with the model's prediction and the journal over the directory with the journal over its good files alone; distinct = distinct input JSON; non-trivial = at least one good and one bad entry"
 }
 func (p *dirProp) N(tier string) int {
 	if tier == "thorough" {
